@@ -19,10 +19,10 @@ const (
 
 // Errors of the receiving side.
 var (
-	ErrShort     = errors.New("refbip324: stream ended inside a packet")
-	ErrAuth      = errors.New("refbip324: AEAD authentication failed")
-	ErrNoTerm    = errors.New("refbip324: garbage terminator not found within 4095+16 bytes")
-	ErrV1        = errors.New("refbip324: peer speaks v1")
+	ErrShort      = errors.New("refbip324: stream ended inside a packet")
+	ErrAuth       = errors.New("refbip324: AEAD authentication failed")
+	ErrNoTerm     = errors.New("refbip324: garbage terminator not found within 4095+16 bytes")
+	ErrV1         = errors.New("refbip324: peer speaks v1")
 	ErrNotStarted = errors.New("refbip324: endpoint has no keys yet")
 )
 
